@@ -146,10 +146,15 @@ def to_xml(doc, over, k):
             a = [(m, w) for m, w in a if m != n] + [(n, v)]
         if first:
             a = [("xmlns", "http://www.w3.org/2000/svg"), ("xmlns:xlink", "http://www.w3.org/1999/xlink")] + a
-        s = "<%s%s" % (tag, "".join(' %s="%s"' % (n, docutil.esc(v)) for n, v in a))
+        wtag = tag
+        if tag == "defs" and (k + idx) % 3 == 1:
+            # another never-rendered container element: a pattern, whose transform attribute is patternTransform
+            wtag = "pattern"
+            a = [("patternTransform" if n == "transform" else n, v) for n, v in a]
+        s = "<%s%s" % (wtag, "".join(' %s="%s"' % (n, docutil.esc(v)) for n, v in a))
         if tag in ("svg", "g", "defs"):
             out.append(s + ">")
-            stack.append(tag)
+            stack.append(wtag)
         else:
             out.append(s + "/>")
         first = False
